@@ -61,6 +61,9 @@ func main() {
 		fmt.Sscan(os.Getenv("VERIF_SEED"), &seed)
 		os.Exit(runCheck(prop, *tier, *repo, *hdir, *j, seed))
 	}
+	if len(os.Args) > 3 && os.Args[1] == "replay" {
+		os.Exit(runReplay(os.Args[2], os.Args[3]))
+	}
 	repo := flag.String("repo", "/repo", "repository under test")
 	hdir := flag.String("harness", "/verif/harness", "harness overlay directory")
 	pkg := flag.String("pkg", "", "package import path of the harness")
@@ -113,4 +116,72 @@ func main() {
 	}
 	b, _ := json.MarshalIndent(out, "", " ")
 	fmt.Println(string(b))
+}
+
+// runReplay re-runs one stored counterexample natively against /repo's current
+// tree: exit 1 and a VIOLATION line if it reproduces, 0 otherwise.
+func runReplay(prop, file string) int {
+	root := verifRoot()
+	repo := "/repo"
+	if r := os.Getenv("VERIF_REPO"); r != "" {
+		repo = r
+	}
+	var mf modelFile
+	if err := loadJSON(file, &mf); err != nil {
+		fmt.Fprintln(os.Stderr, "cannot read", file, err)
+		return 2
+	}
+	var specs map[string]CheckSpec
+	if err := loadJSON(filepath.Join(root, "checks.json"), &specs); err != nil {
+		fmt.Fprintln(os.Stderr, err)
+		return 2
+	}
+	pkg, race := "", false
+	for _, sp := range specs {
+		for _, h := range sp.Harnesses {
+			if h.Fn == mf.Harness {
+				pkg, race = h.Pkg, h.Race
+			}
+		}
+		for _, ex := range sp.Extra {
+			if mf.Harness == "Harness_C09_bch_replay" && ex.Name == "bch" {
+				pkg = "filippo.io/age/" + ex.Pkg
+			}
+		}
+	}
+	if pkg == "" {
+		fmt.Fprintln(os.Stderr, "harness", mf.Harness, "is not registered in checks.json")
+		return 2
+	}
+	tmp, _ := os.MkdirTemp(filepath.Join(root, "tmp"), "replay")
+	if tmp == "" {
+		os.MkdirAll(filepath.Join(root, "tmp"), 0755)
+		tmp, _ = os.MkdirTemp(filepath.Join(root, "tmp"), "replay")
+	}
+	defer os.RemoveAll(tmp)
+	ovPath, err := writeNativeOverlay(repo, filepath.Join(root, "harness"), tmp)
+	if err != nil {
+		fmt.Fprintln(os.Stderr, err)
+		return 2
+	}
+	mdir := filepath.Join(tmp, "models")
+	os.MkdirAll(mdir, 0755)
+	b, _ := os.ReadFile(file)
+	os.WriteFile(filepath.Join(mdir, "r000.json"), b, 0644)
+	verdicts, out, err := nativeReplay(repo, ovPath, pkgRelPath(pkg), mdir, race)
+	if err != nil {
+		fmt.Fprintln(os.Stderr, "native replay failed:", err, "\n"+tail(out, 20))
+		return 2
+	}
+	vd, ok := verdicts["r000.json"]
+	if !ok {
+		fmt.Fprintln(os.Stderr, "no verdict\n"+tail(out, 20))
+		return 2
+	}
+	fmt.Printf("harness=%s verdict=%q\n", mf.Harness, vd[1])
+	if strings.HasPrefix(vd[1], "reproduced: ") {
+		fmt.Printf("VIOLATION property=%s replay=%s\n", prop, file)
+		return 1
+	}
+	return 0
 }
